@@ -12,4 +12,39 @@ CLAIMS = {
                 '__init__/from_json; batch-level clauses (append/extend atomicity, batch from_json) are added as loops land',
     },
 }
+CLAIMS.update({
+    'C05': {
+        'text': 'Exact wire forms of Request.to_json / Response.to_json / JsonRpcError.to_json are proved as map-equalities '
+                '(member by member plus member count) for every field value; the round trip from_json(norm(to_json(m))) is a '
+                'lemma over those contracts and the from_json contracts (same method/id/params/result/error fields, '
+                'identical wire form again, error class = class registered for the code else the supplied base class), '
+                'for all payloads.',
+        'note': 'json.dumps/json.loads are an assumed contract (norm: scalars fixed, tuples->lists, member-wise, length and '
+                'emptiness preserving, idempotent); batch messages are not yet under contract',
+    },
+    'C03': {
+        'text': 'For every registry, method name, params and behaviour of the user method (abstract callable: returns or '
+                'raises any Exception), _handle_rpc_method / _handle_rpc_request / _handle_request of both dispatchers '
+                'produce exactly the error of the failure class (unknown name -32601 nothing executed; params that do not '
+                'bind -32602 method not run; protocol error passed through as the same object; any other exception the '
+                'constant ServerError() with no data) - postconditions over a ghost call trace, proved path by path.',
+        'note': 'Method.bind is an assumed contract (binds(method, params) uninterpreted) until C04; the parse-error / '
+                'invalid-request branches of dispatch() are not yet under contract; user callables follow A-user',
+    },
+    'C02': {
+        'text': 'Per request element: a notification is never answered (success or failure), a call is answered by one '
+                'Response carrying the identical id object and the method value unchanged, and the method is executed '
+                'exactly once iff it is registered and its params bind (ghost trace length and callee) - proved for both '
+                'dispatchers against one shared contract.',
+        'note': 'the batch-level clauses (filter-map over elements, rejection of invalid batches) are not yet under contract',
+    },
+    'C12': {
+        'text': 'Error handlers: loop invariant over it.chain(generic handlers, handlers for the RAISED error code): every '
+                'iteration appends exactly one ghost event - the call of the k-th handler with (request, context, error '
+                'returned by the previous handler) - and the error sent is the last returned one; handlers never run on '
+                'success (trace equality). Both dispatchers, one contract.',
+        'note': 'the middleware chain built in the constructor and its use by dispatch() are not yet under contract; '
+                'handlers are assumed not to raise and to return well-formed protocol errors (A-user)',
+    },
+})
 NOT_CLAIMED = {}
